@@ -40,12 +40,29 @@ use core::{fmt, ptr, str};
 /// A arbitrary length sequence of bit-packed symbols
 ///
 /// Stored on the heap
-#[derive(Debug, PartialEq, Eq, PartialOrd, Ord)]
+#[derive(Debug, PartialEq, Eq)]
 #[cfg_attr(feature = "serde", derive(Serialize, Deserialize))]
 #[repr(transparent)]
 pub struct Seq<A: Codec> {
     pub(crate) _p: PhantomData<A>,
     pub(crate) bv: Bv,
+}
+
+/// Sequences are ordered colexicographically (last symbol most significant), like `Kmer`s
+impl<A: Codec> Ord for Seq<A> {
+    fn cmp(&self, other: &Self) -> core::cmp::Ordering {
+        self.bv
+            .iter()
+            .by_vals()
+            .rev()
+            .cmp(other.bv.iter().by_vals().rev())
+    }
+}
+
+impl<A: Codec> PartialOrd for Seq<A> {
+    fn partial_cmp(&self, other: &Self) -> Option<core::cmp::Ordering> {
+        Some(self.cmp(other))
+    }
 }
 
 impl<A: Codec> From<Seq<A>> for usize {
